@@ -79,10 +79,20 @@ def errAtom : Err → String
 
 /-! ### masks and results -/
 
-def maskToSexp (m : Mask) : List Sexp := [ofNats m.shape, ofBools m.bits]
+/-- Mask values travel as one atom `b0110…` (row-major). -/
+def bitsAtom (bs : List Bool) : Sexp := .atom ("b" ++ String.ofList (bs.map fun b => if b then '1' else '0'))
+
+def bitsOf? : Sexp → Option (List Bool)
+  | .atom s =>
+    match s.toList with
+    | 'b' :: cs => cs.mapM fun c => if c == '1' then some true else if c == '0' then some false else none
+    | _ => none
+  | _ => none
+
+def maskToSexp (m : Mask) : List Sexp := [ofNats m.shape, bitsAtom m.bits]
 
 def resOf? : Sexp → Option (Except Err Mask)
-  | .list [.atom "ok", sh, bs] => do some (.ok ⟨← sh.toNats?, ← bs.toBools?⟩)
+  | .list [.atom "ok", sh, bs] => do some (.ok ⟨← sh.toNats?, ← bitsOf? bs⟩)
   | .list [.atom "err", .atom e] => (errOf? e).map .error
   | _ => none
 
@@ -303,7 +313,7 @@ def ObsRec.ofSexp? : Sexp → Option ObsRec
   | .atom "N" => some ⟨"N", ⟨[], []⟩, "", 0, true⟩
   | .atom "bad" => some ⟨"bad", ⟨[], []⟩, "", 0, true⟩
   | .list [.atom "ok", sh, bs, al, en] => do
-    some ⟨"ok", ⟨← sh.toNats?, ← bs.toBools?⟩, "", ← al.toNat?, ← en.toBool?⟩
+    some ⟨"ok", ⟨← sh.toNats?, ← bitsOf? bs⟩, "", ← al.toNat?, ← en.toBool?⟩
   | .list [.atom "err", .atom e] => some ⟨"err", ⟨[], []⟩, e, 0, true⟩
   | _ => none
 
@@ -322,7 +332,7 @@ def MemoRec.toSexp (m : MemoRec) : Sexp :=
 
 def MemoRec.ofSexp? : Sexp → Option MemoRec
   | .list [.atom t, n, d, v, .atom f, al, sh, bs] => do
-    some ⟨t, ← optNat? n, ← d.toNat?, ← v.toNat?, f, ← optNat? al, ⟨← sh.toNats?, ← bs.toBools?⟩⟩
+    some ⟨t, ← optNat? n, ← d.toNat?, ← v.toNat?, f, ← optNat? al, ⟨← sh.toNats?, ← bitsOf? bs⟩⟩
   | _ => none
 
 structure Output where
